@@ -11,6 +11,7 @@ from ..ctx import Ctx
 from ..dataflow import definite_assignment, nonempty_analysis, _stores
 from ..model import AnalysisError, Callee, Mod, norm, walk_scope, calls_in, PKG
 from ..util import (broad_handlers, contains, enclosing_loops, enclosing_tries, equivalent, in_body)
+from .opcodes import guards_of
 
 HOOKS = {
     f"{PKG}._customization.unwrap_stackitem": "unwrap_stackitem hook (singledispatch: third-party code)",
@@ -674,11 +675,30 @@ def eng34(ctx: Ctx) -> None:
     if not inner:
         raise AnalysisError("ENG-3: inner unwrap loop not found")
     loop = inner[0]
-    pushes = [c for c in ast.walk(loop) if isinstance(c, ast.Call) and norm(c.func) in ("to_unwrap.appendleft", "to_unwrap.append")]
+    pushes = [c for c in ast.walk(loop) if isinstance(c, ast.Call) and norm(c.func) in ("to_unwrap.appendleft", "to_unwrap.append", "to_unwrap.insert")]
     if not pushes:
         ctx.R.undecided("ENG-3", "no push onto the unwrap queue inside the unwrap loop")
     for c in pushes:
         a = c.args[0] if c.args else None
+        if norm(c.func) == "to_unwrap.insert":
+            a = c.args[1] if len(c.args) == 2 else None
+            # results take the unwrapped item's place in order: an insertion index that comes from enumerate() over the
+            # results must not be used under a filter on the item (skipped entries would still advance the index)
+            idx = c.args[0] if c.args else None
+            fors = [f_ for f_ in mod.ancestors(c) if isinstance(f_, ast.For) and isinstance(f_.iter, ast.Call) and norm(f_.iter.func) == "enumerate"
+                    and isinstance(f_.target, ast.Tuple) and len(f_.target.elts) == 2]
+            if isinstance(idx, ast.Name) and fors and norm(fors[0].target.elts[0]) == idx.id:
+                itemv = norm(fors[0].target.elts[1])
+                filt = [gx for gx, pol in guards_of(mod, c, fn) if any(isinstance(x, ast.Name) and x.id == itemv for x in ast.walk(gx)) and any(gx is y for y in ast.walk(fors[0]))]
+                if filt:
+                    ctx.R.fail("ENG-3", mod, c, f"unwrap results are inserted at the index enumerate() gives them while `{norm(filt[0])}` skips some: a skipped entry (None) still advances the index, so the "
+                               "items after it land behind the next pending sibling instead of taking the unwrapped item's place in order", construct="insert index counts skipped entries")
+                else:
+                    ctx.R.ok("ENG-3", "unwrap results are inserted at consecutive indices from the front")
+            elif isinstance(idx, ast.Constant) and idx.value == 0:
+                pass  # same as appendleft
+            else:
+                ctx.R.undecided("ENG-3", f"insertion index `{norm(idx) if idx is not None else ''}` of unwrap results not understood")
         elts = None
         if isinstance(a, ast.Tuple) and len(a.elts) == 3:
             elts = a.elts
@@ -1399,6 +1419,73 @@ def err1(ctx: Ctx) -> None:
         raise AnalysisError(f"ERR-1: {n} except handlers found in the engine module (>= 6 confirmed by hand)")
 
 
+def truth1(ctx: Ctx) -> None:
+    """TRUTH-1 what a hook returns is never tested for truthiness: PRUNE is the empty tuple and an empty sequence is a
+    meaningful answer of elaborate_frame / unwrap_stackitem (remove the callees / the item), None is the only "no opinion";
+    so `result or default`, `if result:`, `not result` turn PRUNE / [] into "no opinion".  Checked for every call of a hook
+    dispatcher and of a user-supplied hook parameter (customize(elaborate=...)) in the engine and customization modules"""
+    hooks = ("elaborate_frame", "unwrap_stackitem", "unwrap_context", "unwrap_context_generator")
+    n = 0
+    for mn in ("_extract", "_customization"):
+        mod = ctx.P.mod(mn)
+        for q, fn in mod.defs.items():
+            if not isinstance(fn, (ast.FunctionDef, ast.AsyncFunctionDef)):
+                continue
+            # user hook parameters: `elaborate` of customize and names bound from it in enclosing scopes
+            user = set()
+            for f_up in [fn] + [a for a in mod.ancestors(fn) if isinstance(a, ast.FunctionDef)]:
+                if f_up.name == "customize":
+                    user.add("elaborate")
+                    for a_ in ast.walk(f_up):
+                        if isinstance(a_, ast.Assign) and len(a_.targets) == 1 and isinstance(a_.targets[0], ast.Name) and isinstance(a_.value, ast.Name) and a_.value.id in user:
+                            user.add(a_.targets[0].id)
+            for c in calls_in(fn, scope_only=True):
+                if not (isinstance(c.func, ast.Name) and (c.func.id in hooks or c.func.id in user)):
+                    continue
+                if c.func.id in hooks and not ctx.P.resolve_call(mod, c).kind == "pkg":
+                    continue
+                n += 1
+                bad = _bool_use(mod, fn, c)
+                if bad is not None:
+                    ctx.R.fail("TRUTH-1", mod, bad, f"{q}: the result of `{norm(c)[:50]}` is tested for truthiness in `{norm(bad)[:70]}`: PRUNE (the empty tuple) and an empty sequence are falsy, "
+                               "so a hook's \"remove the callees\" answer is treated like None (\"no opinion\")", construct=f"{q}: truthiness of {c.func.id}(...)")
+                else:
+                    ctx.R.ok("TRUTH-1", f"{mn}.{q}: {norm(c)[:50]}", "result only compared with None / PRUNE / isinstance")
+    if n < 4:
+        raise AnalysisError(f"TRUTH-1: {n} hook calls found in the engine / customization modules (>= 4 confirmed by hand)")
+
+
+def _bool_use(mod, fn: ast.AST, c: ast.Call) -> Optional[ast.AST]:
+    """the node in which the value of call c (directly, or through the local name it is assigned to) is used as a truth value"""
+    def boolean_parent(x: ast.AST) -> Optional[ast.AST]:
+        p = mod.parent_of(x)
+        if isinstance(p, ast.BoolOp):
+            # the last operand of `a or b` is returned as is; only operands that are *tested* count
+            if any(v is x for v in p.values[:-1]):
+                return p
+            return boolean_parent(p)
+        if isinstance(p, ast.UnaryOp) and isinstance(p.op, ast.Not):
+            return p
+        if isinstance(p, (ast.If, ast.While, ast.IfExp)) and p.test is x:
+            return p
+        if isinstance(p, ast.Assert) and p.test is x:
+            return None
+        return None
+    b = boolean_parent(c)
+    if b is not None:
+        return b
+    p = mod.parent_of(c)
+    if isinstance(p, ast.Assign) and len(p.targets) == 1 and isinstance(p.targets[0], ast.Name):
+        v = p.targets[0].id
+        # only while v still holds the hook result: stop at other assignments to v (approximation: single other source allowed if None/PRUNE constant)
+        for u in ast.walk(fn):
+            if isinstance(u, ast.Name) and u.id == v and isinstance(u.ctx, ast.Load) and mod.enclosing_def(u) is fn:
+                b = boolean_parent(u)
+                if b is not None:
+                    return b
+    return None
+
+
 def sig1(ctx: Ctx) -> None:
     """SIG-1 every function registered for a hook takes the number of positional arguments the engine calls that hook with
     (unwrap_stackitem: 1; elaborate_frame / elaborate_context / unwrap_context / unwrap_context_generator: 2), and every call of
@@ -1434,6 +1521,6 @@ def sig1(ctx: Ctx) -> None:
         raise AnalysisError(f"SIG-1: only {n} hook registrations / calls found (>= 25 confirmed by hand)")
 
 
-C10 = C10 + [sig1, eng5]
+C10 = C10 + [sig1, eng5, truth1]
 C05 = C05 + [err1]
 C11 = C11 + [sig1]
